@@ -190,6 +190,10 @@ func (p *c01) RunCase(ctx *runner.Ctx) runner.CaseResult {
 	if (idx/2)%2 == 1 {
 		spec = mon.SpecHashRange("tbl01")
 	}
+	// seeded histories run on a table with a GSI on attribute "a" so that writes can be REJECTED after
+	// their expression was evaluated (wrong-typed index key, removed / retyped key attribute): the map
+	// must keep the state of the most recent SUCCESSFUL write
+	spec.Indexes = []adapt.IndexSpec{{Name: "gsia", Hash: "a"}}
 	nk := 3 + r.Intn(4)
 	keys := []val.Item{}
 	seen := map[string]bool{}
@@ -215,6 +219,9 @@ func (p *c01) RunCase(ctx *runner.Ctx) runner.CaseResult {
 		case 0:
 			it := mon.Item(r, k, 5, opts)
 			delete(it, "n")
+			if v, ok := it["a"]; ok && (v.K != val.KS || v.Str == "") {
+				it["a"] = val.Str(mon.Pick(r, []string{"x", "y"})) // an index key: a non-empty string
+			}
 			if r.Intn(2) == 0 {
 				it["n"] = val.Num(mon.Pick(r, mon.SmallNumerals))
 			}
@@ -222,15 +229,40 @@ func (p *c01) RunCase(ctx *runner.Ctx) runner.CaseResult {
 		case 1:
 			it := mon.Item(r, k, 1, opts)
 			delete(it, "n")
+			if v, ok := it["a"]; ok && (v.K != val.KS || v.Str == "") {
+				delete(it, "a")
+			}
 			op = adapt.Op{Kind: adapt.OpPut, Table: spec.Name, Item: it}
 		case 2:
-			op = mon.SetUpdate(spec.Name, k, mon.Pick(r, mon.AttrNames[:4]), mon.Value(r, 2, opts))
+			op = mon.SetUpdate(spec.Name, k, mon.Pick(r, mon.AttrNames[1:4]), mon.Value(r, 2, opts))
 		case 3:
 			op = mon.RemoveUpdate(spec.Name, k, mon.Pick(r, mon.AttrNames))
 		case 4:
 			op = mon.AddUpdate(spec.Name, k, "n", val.Num(mon.Pick(r, []string{"1", "2", "-1", "10"})))
 		default:
 			op = c01Op(spec, t, k, i)
+		}
+		if r.Intn(6) == 0 {
+			// a write that must be rejected
+			switch r.Intn(5) {
+			case 0:
+				op = mon.RemoveUpdate(spec.Name, k, spec.Hash)
+			case 1:
+				op = mon.SetUpdate(spec.Name, k, spec.Hash, val.Num("7"))
+			case 2:
+				op = mon.SetUpdate(spec.Name, k, "a", val.Num("7")) // index key attribute of the wrong type
+			case 3:
+				it := k.Clone()
+				it["a"] = val.Bool(true)
+				op = adapt.Op{Kind: adapt.OpPut, Table: spec.Name, Item: it}
+			default:
+				if spec.Range != "" {
+					op = mon.RemoveUpdate(spec.Name, k, spec.Range)
+				} else {
+					op = mon.SetUpdate(spec.Name, k, "a", val.List(val.Str("x")))
+				}
+			}
+			t = 2
 		}
 		ops = append(ops, op)
 		kinds = append(kinds, fmt.Sprintf("%s%d", c01TemplateNames[t], ki))
